@@ -90,6 +90,12 @@ def program_for(expr, form):
         return 'CONST c = %s\nPRINT c\n' % expr
     if form == 'ifcond':
         return 'IF %s THEN PRINT "t" ELSE PRINT "f"\n' % expr
+    if form.startswith('assign'):
+        # implicit conversion of the constant to each variable type, and as
+        # a by-value argument
+        t = form[-1]
+        return ('x%s = %s\nPRINT x%s\nCALL s((%s))\nSUB s (p%s)\n'
+                'PRINT p%s\nEND SUB\n' % (t, expr, t, expr, t, t))
     # static array bound: the compile-time bound decides the layout, the
     # generated code evaluates the bound again at run time
     return ('v = 7\nDIM a(%s TO 3 + (%s)) AS INTEGER\nw = 9\n'
@@ -129,6 +135,8 @@ def items(cfg):
             out.append((e, 'ifcond'))
         elif r < 0.32 and '"' not in e:
             out.append((e, 'bound'))
+        elif r < 0.50 and '"' not in e:
+            out.append((e, 'assign' + '%&!#'[int(r * 1000) % 4]))
     if cfg['tier'] == 'quick':
         rng.shuffle(out)
         out = out[:cfg['quick_sample']]
@@ -207,10 +215,39 @@ def _dk(a, b):
     return '%s/%s' % (a[0], b[0])
 
 
+def bound_neighbours(text, cfg):
+    """The 'bound' form: the compile-time bounds decide the frame layout,
+    the generated code evaluates them again at run time; if the two disagree
+    the stores to the first / last element land on the neighbours v and w."""
+    out = []
+    for lvl in LEVELS:
+        c = X.compile_one(text, lvl, False)
+        if c.kind != 'accepted':
+            continue
+        r = X.execute(c.module, X.Script(), tick_budget=cfg['tick_budget'])
+        if r.outcome[0] != 'end':
+            continue
+        ev = [e for e in r.events if e[0] == 'print_items']
+        if not ev or not ev[-1][1]:
+            continue
+        vals = [it for it in ev[-1][1] if it[0] == 'v']
+        if len(vals) == 5:
+            lb, ub, v, w, first = [x[2] for x in vals]
+            want_first = 1 if ub != lb else 2
+            if (v, w, first) != (7.0, 9.0, want_first):
+                out.append(('bound_layout', {
+                    'level': lvl, 'lbound': lb, 'ubound': ub, 'v': v, 'w': w,
+                    'first_element': first}))
+                break
+    return out
+
+
 def check_item(item, cfg):
     expr, form = item
     text = program_for(expr, form)
     failures, info = run_levels(text, {}, cfg)
+    if form == 'bound':
+        failures = failures + bound_neighbours(text, cfg)
     fl = [{'bucket': 'const:' + b, 'detail': dict(d, expr=expr, form=form),
            'case': {'text': text, 'script': {}}} for b, d in failures]
     return {'key': digest(text), 'nontrivial': True,
@@ -249,6 +286,8 @@ def replay(obj, cfg):
     dbg = bool(obj.get('dbg'))
     failures, info = run_levels(obj['text'], obj.get('script') or {}, cfg,
                                 lambda lvl: dbg)
+    if 'DIM a(' in obj['text'] and not obj.get('ast'):
+        failures = failures + bound_neighbours(obj['text'], cfg)
     pre = 'prog:' if obj.get('ast') else 'const:'
     return {'failures': [{'bucket': pre + b, 'detail': d, 'case': obj}
                          for b, d in failures]}
